@@ -10,13 +10,20 @@ here, for every CFG, environment and budget:
   early-stop states are precisely the prefixes `loop 0, loop 1, …` of one deterministic
   sequence;
 * a budget of `k + 1` passes is the budget-`k` state followed by one more pass.
-That every prefix state satisfies C06/C07 is decided per run by `checks/c20.py`: with the
+* **every prefix state satisfies C06 and C07** (`C20_value_prefix_sound`, `C20_degree_prefix_sound`): for
+  every budget `k` — zero passes, any number of passes, the fixpoint — every value claim and every
+  degree range present on the CFG after `k` passes is right in every state any execution can reach
+  (the path-level theorems of C06/C07, which hold for every `k` because the invariant is kept by every
+  single statement visit, not only by whole passes).
+The tie to the code is decided per run by `checks/c20.py`: with the
 `verif` pass-budget hook the real annotations after `k` passes (values and degrees
 independently, `k = 0, 1, …` up to the fixpoint) must equal the model's, every prefix claim is
 checked by the C06 interpreter oracle and the C07 fixpoint oracle, and claims must be monotone in
 `k` (never retracted or changed).
 -/
 import Circomspect.Model.Propagate
+import Circomspect.Lemmas.PathValues
+import Circomspect.Lemmas.PathDegrees
 
 namespace Circomspect.C20
 open Circomspect Ir Propagate
@@ -68,5 +75,19 @@ theorem C20_zero_budget (venv : ValEnv) (denv : DegEnv) (bs : List Block) :
 /-- the tool completes for every budget: the result of the loop exists for every `k` -/
 theorem C20_total (k : Nat) (venv : ValEnv) (denv : DegEnv) (bs : List Block) :
     (∃ r, valLoop k venv bs = r) ∧ (∃ r, degLoop k denv bs = r) := ⟨⟨_, rfl⟩, ⟨_, rfl⟩⟩
+
+/-- whatever the budget, every value claim on the CFG is right in every reachable state (C06 for every prefix) -/
+theorem C20_value_prefix_sound (p : Int) (bs : List Block) (hsd : SingleDef (stmtsOf bs))
+    (hclean : ∀ s, s ∈ stmtsOf bs → NoValS s) :
+    ∀ k σ, Reach p (stmtsOf bs) σ → ∀ s, s ∈ stmtsOf (valStates ⟨p, [], []⟩ bs k).1 → SoundS σ p s :=
+  fun k => value_path_sound p bs hsd (fun σ _ s hs => noValS_sound σ p s (hclean s hs)) k
+
+/-- whatever the budget, every degree range on the CFG bounds its node in every reachable degree state
+    (C07 for every prefix) -/
+theorem C20_degree_prefix_sound (cfg : Cfg) (wf : WfD (programOf cfg) cfg.params)
+    (hclean : ∀ s, s ∈ stmtsOf cfg.blocks → NoDegS s) :
+    ∀ k δ, ReachD (programOf cfg) cfg.params cfg.isFunction δ →
+      ∀ s, s ∈ stmtsOf (degStates (degInit cfg) cfg.blocks k).1 → SoundSD δ s :=
+  fun k => degree_path_sound cfg wf hclean k
 
 end Circomspect.C20
